@@ -69,3 +69,14 @@ func (s *VerifSnapshotter) SaveSnapshotRecord(ss pb.Snapshot) error {
 func (s *VerifSnapshotter) Dir() string {
 	return s.dir
 }
+
+// VerifIsFreeOrderMessage, VerifReplicateAfterPersist and
+// VerifReplicateToWitness expose the rules by which the step worker decides
+// which messages of an update are sent before the update is persisted.
+func VerifIsFreeOrderMessage(m pb.Message) bool { return isFreeOrderMessage(m) }
+
+// VerifReplicateAfterPersist exposes replicateAfterPersist.
+func VerifReplicateAfterPersist(ud pb.Update) bool { return replicateAfterPersist(ud) }
+
+// VerifReplicateToWitness exposes replicateToWitness.
+func VerifReplicateToWitness(m pb.Message) bool { return replicateToWitness(m) }
